@@ -21,7 +21,8 @@ RULE = ("Hypothesis-generated version-1 certificates: any forest over {device, a
         "signer} rooted at the root key (depth 1..4, shared ancestors, wrong parents), any "
         "non-empty target subset, tweaks on any element, 0..2 corruptions (bit flips in message / "
         "signature / tweak / embedded key, swapped signatures, signature by another key, dropped "
-        "or added tweak, re-keyed parent, wrong root, DER with trailing bytes); non-trivial = >= "
+        "or added tweak, re-keyed parent, wrong root, DER with trailing bytes); targets may repeat; "
+        "the loaded object is validated 1..4 times (same root again / another root); non-trivial = >= "
         "1 corruption, or depth >= 3 with a tweak; distinct by case fingerprint")
 ASSUMPTIONS = [
     "expected verdicts from an independent chain walk with the pure-Python ecdsa package and "
